@@ -675,12 +675,14 @@ Section Order.
     intros Hwf. induction fa as [|fa IH]; intros t V pm path Hwt Hnd Hi Hb Hndm Hbm Hfu.
     - pose proof (bounded_len path _ Hnd Hb). pose proof (bounded_len pm _ Hndm Hbm). lia.
     - destruct t as [p d|e|s|m].
-      + eapply (tot_nonarray Hwf fa IH); eauto; exact I.
+      + exact (tot_nonarray Hwf fa IH (TPrim p d) V pm path I Hwt Hnd Hi Hb Hndm Hbm Hfu).
       + change (exists V', aw (S fa) e V pm = Some V' /\ incl V V').
-        destruct e as [p d|e'|s|m]; [| contradiction | |];
-          (eapply (tot_nonarray Hwf fa IH); eauto; exact I).
-      + eapply (tot_nonarray Hwf fa IH); eauto; exact I.
-      + eapply (tot_nonarray Hwf fa IH); eauto; exact I.
+        destruct e as [p d|e'|s|m]; [| contradiction | |].
+        * exact (tot_nonarray Hwf fa IH (TPrim p d) V pm path I Hwt Hnd Hi Hb Hndm Hbm Hfu).
+        * exact (tot_nonarray Hwf fa IH (TStruct s) V pm path I Hwt Hnd Hi Hb Hndm Hbm Hfu).
+        * exact (tot_nonarray Hwf fa IH (TMultimap m) V pm path I Hwt Hnd Hi Hb Hndm Hbm Hfu).
+      + exact (tot_nonarray Hwf fa IH (TStruct s) V pm path I Hwt Hnd Hi Hb Hndm Hbm Hfu).
+      + exact (tot_nonarray Hwf fa IH (TMultimap m) V pm path I Hwt Hnd Hi Hb Hndm Hbm Hfu).
   Qed.
 
   (* ---------- the theorem ---------- *)
@@ -706,5 +708,3 @@ Section Order.
   Qed.
 End Order.
 
-Check wire_schema_order.
-Print Assumptions wire_schema_order.
